@@ -246,6 +246,25 @@ def rule_r3(ck, prog, rule='C16.R3'):
             if val is None:
                 continue
             from_fields = any(f.nodes[i]['k'] == 'call' and f.nodes[i].get('op') == '[]' and 'array' in strip_targs(f.nodes[i].get('c', '')) for i in f.subtree(val))
+            if not from_fields and dp.n['k'] == 'call' and val == dp.n['i'] and dp.n.get('ck') in prog.funcs:
+                # written through an out-parameter of a private helper that splits the single header: the helper assigns the
+                # parameter from the split fields
+                callee = prog.funcs[dp.n['ck']]
+                for pi, arg in enumerate(dp.n.get('args', [])):
+                    if arg is not None and arg >= 0 and strip_casts(f, arg).get('id') == a['id'] and pi < len(callee.params):
+                        cpid = callee.params[pi]['id']
+                        asg = [m for m in callee.nodes if (m['k'] == 'binop' and m['op'] == '=' and strip_casts(callee, m['lhs']).get('id') == cpid) or
+                               (m['k'] == 'call' and m.get('op') == '=' and m.get('obj') is not None and strip_casts(callee, m['obj']).get('id') == cpid)]
+                        rhs = [(m['rhs'] if m['k'] == 'binop' else (m['args'][0] if m.get('args') else None)) for m in asg]
+                        if asg and all(r is not None and any(callee.nodes[i]['k'] == 'call' and callee.nodes[i].get('op') == '[]' and 'array' in strip_targs(callee.nodes[i].get('c', ''))
+                                                            for i in list(callee.subtree(r)) + [r]) for r in rhs):
+                            from_fields = True
+            if not from_fields and dp.n['k'] == 'declstmt':
+                vn = strip_casts(f, val)
+                if vn['k'] == 'construct' and not [x for x in vn.get('args', []) if x is not None and x >= 0 and f.nodes[x]['k'] != 'defarg']:
+                    # the default-constructed (empty) view of the declaration, still visible because a helper writes the field
+                    # through an out-parameter: an empty field is "missing", not "from somewhere else"
+                    continue
             if not from_fields:
                 bad = (s, dp)
     ck.verdict(bad is None and len(sinks) == 3, rule, f, 'single-header-fields-only', (bad[0].n if bad else (sinks[0].n if sinks else None)),
@@ -333,7 +352,19 @@ def rule_r1_sampling_not_validity(ck, prog, rule='C16.R1'):
         labelled = [(q, lab) for (q, lab) in p.succ if lab and isinstance(lab[0], int) and lab[1] is f]
         if len(labelled) < 2:
             continue
-        if not any(f.nodes[j]['k'] == 'ref' and f.nodes[j].get('id') == a['id'] for j in f.subtree(labelled[0][1][0])):
+        csub = list(f.subtree(labelled[0][1][0])) + [labelled[0][1][0]]
+        if not any(f.nodes[j]['k'] == 'ref' and f.nodes[j].get('id') == a['id'] for j in csub):
+            continue
+        # the field handed to a helper as an out-parameter inside the condition (`if (!Split(header, a, b, flags))`) is written
+        # there, not tested
+        written_only = True
+        for j in csub:
+            if f.nodes[j]['k'] == 'ref' and f.nodes[j].get('id') == a['id']:
+                as_out = any(f.nodes[c_]['k'] == 'call' and any(v == a['id'] and not st for (v, st, _x) in defs_in_node(f, f.nodes[c_])) and
+                             j in [strip_casts(f, x)['i'] for x in f.nodes[c_].get('args', []) if x is not None and x >= 0] for c_ in csub)
+                if not as_out:
+                    written_only = False
+        if written_only:
             continue
         can = [any(r.id in g.reachable_from([q]) for r in succ) for (q, _l) in labelled]
         if any(can) and not all(can):
@@ -399,6 +430,9 @@ def rule_r4_view_subscripts(ck, prog, rule='C16.R4', prefix='opentelemetry::trac
                         odd_when = (c[0] == '==') == (strip_casts(lab[1], c[2]).get('v') == 1)
                     elif cn['k'] == 'binop' and cn['op'] in ('%', '&'):
                         m, odd_when = cn, True       # `if (size % 2)`
+                    if m is not None and m['k'] == 'ref':
+                        m2 = once_init(lab[1], m['i'])      # `const size_t first_pair = size % 2; if (first_pair != 0)`
+                        m = strip_casts(lab[1], m2['i']) if 'i' in m2 else m
                     if m is not None and m['k'] == 'binop' and ((m['op'] == '%' and strip_casts(lab[1], m['rhs']).get('v') == 2) or
                                                                (m['op'] == '&' and strip_casts(lab[1], m['rhs']).get('v') == 1)):
                         ml = linear(g, rd, lab[1], m['lhs'], a.ctx)
@@ -508,7 +542,7 @@ def run(ck, prog):
     ck.doc('C16.R1', 'sampling field written from IsSampled() only; extractors read exactly the sampled decision; the B3 sampling field never invalidates', 6)
     ck.doc('C16.R2', 'constant-bounded, exactly partitioned header buffers with separators at the documented offsets', 6)
     ck.doc('C16.R3', 'install only valid contexts; B3 single-header precedence; decodes checked or zero-filled', 11)
-    ck.doc('C16.R4', 'every non-constant string_view subscript of the propagation helpers is dominated by a guard implying index < size', 4)
+    ck.doc('C16.R4', 'every non-constant string_view subscript of the propagation helpers is dominated by a guard implying index < size', 1)
     ck.doc('C16.R5', 'propagators are functions of (carrier, given context): Inject reads GetSpan(context parameter), no thread state, Extract only installs into / returns its context parameter', 10)
     ck.doc('C09.R3', '(shared rule) bounded subscripts into constant tables (hex lookup)', 10)
     ck.doc('C09.R7', '(shared rule, see C09) no function-local static of the propagators is modified after, or initialised from the data of, a call', 1)
